@@ -33,11 +33,38 @@ def lengths(tier, max_bytes):
     return out
 
 
+def device_cases(devs, tier):
+    """(kind, length, figures): the writer is handed the device's sizes with the image (BuildResult); the file must not
+    depend on them.  For every distinct (flash words, EEPROM bytes, RAM bytes) of the device table: images up to the device's
+    flash around every 64 KiB multiple it can hold (all of them for small parts; first, second and last for the big ones),
+    and EEPROM images up to the EEPROM size."""
+    figs = sorted(set((f[1], f[4], f[3]) for f in devs))
+    out = []
+    for flash, eep, ram in figs:
+        cap = 2 * flash
+        ks = list(range(1, cap // 65536 + 1))
+        if len(ks) > 3 and (tier == "quick" or len(ks) > 8):
+            ks = ks[:2] + ks[-1:]
+        lens = {1, 16, 17, min(cap, 600)}
+        for k in ks:
+            for d in (-16, -1, 0, 1, 16, 17, 32):
+                if 0 < k * 65536 + d <= cap:
+                    lens.add(k * 65536 + d)
+        lens.add(cap)
+        for n in sorted(lens):
+            if n <= (1 << 20) or tier != "quick":
+                out.append(("code", n, (flash, eep, ram)))
+        for n in sorted({1, 17, eep} - {0}):
+            out.append(("eeprom", n, (flash, eep, ram)))
+    return out
+
+
 def run_batch(vh, exe, work, idx, batch, seed):
     d = os.path.join(work, "b%d" % idx)
     shutil.rmtree(d, ignore_errors=True)
     os.makedirs(d)
-    inp = "".join("%s %d %d\n" % (k, n, seed * 1000003 + idx * 7919 + j) for j, (k, n) in enumerate(batch))
+    inp = "".join("%s %d %d%s\n" % (c[0], c[1], seed * 1000003 + idx * 7919 + j, (" %d %d %d" % c[2]) if len(c) > 2 else "")
+                  for j, c in enumerate(batch))
     C.vh(vh, ["hex", d], input=inp)
     out = C.model(exe, ["hex", d, str(len(batch))])
     rows = []
@@ -51,10 +78,11 @@ def run_batch(vh, exe, work, idx, batch, seed):
                     outcome = open(os.path.join(d, "%d.outcome" % j)).read()
                 except OSError:
                     outcome = "missing"
-            rows.append((batch[j][0], batch[j][1], seed * 1000003 + idx * 7919 + j, f[1], f[2], outcome))
+            rows.append((batch[j][0], batch[j][1], seed * 1000003 + idx * 7919 + j, f[1], f[2], outcome, batch[j][2] if len(batch[j]) > 2 else None))
     small = []
     if idx % 4 == 0:  # keep a few small cases for the in-Coq slice
-        for j, (k, n) in enumerate(batch):
+        for j, c in enumerate(batch):
+            k, n = c[0], c[1]
             p = os.path.join(d, "%d.hex" % j)
             if n <= 40 and os.path.exists(p):
                 small.append((list(open(os.path.join(d, "%d.bin" % j), "rb").read()), list(open(p, "rb").read())))
@@ -90,7 +118,7 @@ def run(res):
         res.oblige("coq build", False, pr["broken"])
     devs = [ln.split() for ln in C.vh(vh, ["devices"]).splitlines()]
     max_bytes = max(int(f[1]) for f in devs if f[0] != "-") * 2
-    cases = lengths(res.tier, max_bytes)
+    cases = lengths(res.tier, max_bytes) + device_cases([(f[0], int(f[1]), int(f[2]), int(f[3]), int(f[4])) for f in devs], res.tier)
     nb = 32
     batches = [cases[i::nb] for i in range(nb)]
     work = os.path.join(C.BUILD, "work", "c07-%d" % os.getpid())
@@ -101,12 +129,12 @@ def run(res):
             small += s
     shutil.rmtree(work, ignore_errors=True)
     mism = [r for r in rows if r[3] != "ok"]
-    for kind, n, sd, corr, spec, outcome in rows:
-        res.count((kind, n, sd), nontrivial=n > 0)
+    for kind, n, sd, corr, spec, outcome, fig in rows:
+        res.count((kind, n, sd, fig), nontrivial=n > 0)
         if spec != "ok":
             res.failing.append(dict(
                 interface="writer::write_%s_hex" % kind,
-                input=dict(kind=kind, length=n, image_seed=sd),
+                input=dict(kind=kind, length=n, image_seed=sd, device_figures=list(fig) if fig else None),
                 expected="a file that the independent Intel HEX reader decodes to exactly the image bytes at addresses 0..length-1",
                 observed=("library call ended with " + outcome) if outcome else "file rejected by the reader or decodes to something else",
                 cls="above-64KiB" if n > 65536 else "other"))
@@ -115,12 +143,15 @@ def run(res):
                "first mismatch: %s" % (mism[0][:3],) if mism else ("%d of %d cases ran" % (len(rows), len(cases))))
     incoq(res, small[:48])
     dist = {"len0": 0, "1..16": 0, "17..600": 0, "64KiB-boundaries": 0}
+    dist["with-device-figures"] = sum(1 for r in rows if r[6])
     for kind, n, *_ in rows:
         dist["len0" if n == 0 else "1..16" if n <= 16 else "17..600" if n <= 600 else "64KiB-boundaries"] += 1
     res.rule = ("images = (writer, length, PRNG seed): every length 0..600, every length within +-17 of each multiple of "
                 "65536 up to 2*max flash words of the device table (%d bytes; quick tier: first two and last multiple); "
-                "contents random / counting / 0xFF / sparse by seed; non-trivial = non-empty image" % max_bytes)
-    res.samples = [dict(writer=k, length=n, seed=s, model_equals_file=c, reader_accepts=sp) for k, n, s, c, sp, _ in rows[:3] + rows[-3:]]
+                "contents random / counting / 0xFF / sparse by seed; plus, for every distinct (flash, EEPROM, RAM) row of the device table "
+                "handed to the writer with the image, images around every 64 KiB multiple that fits the part and the full-flash / "
+                "full-EEPROM images; non-trivial = non-empty image" % max_bytes)
+    res.samples = [dict(writer=k, length=n, seed=s, model_equals_file=c, reader_accepts=sp, device_figures=fg) for k, n, s, c, sp, _, fg in rows[:3] + rows[-3:]]
     res.extra["distribution"] = dist
     res.extra["exhaustive"] = False
     res.assume = ["ihex crate record formatting and the LF->CRLF pass are part of Model/Hex.write (modelled, tied by byte-for-byte comparison)",
@@ -143,7 +174,8 @@ def replay(path):
         return 1
     work = os.path.join(C.BUILD, "work", "c07-replay-%d" % os.getpid())
     os.makedirs(work, exist_ok=True)
-    C.vh(vh, ["hex", work], input="%s %d %d\n" % (i["kind"], i["length"], i["image_seed"]))
+    fg = i.get("device_figures")
+    C.vh(vh, ["hex", work], input="%s %d %d%s\n" % (i["kind"], i["length"], i["image_seed"], (" %d %d %d" % tuple(fg)) if fg else ""))
     out = C.model(exe, ["hex", work, "1"]).split()
     shutil.rmtree(work, ignore_errors=True)
     if out[2] == "ok":
